@@ -11,7 +11,7 @@ import random
 
 from vmon import core, inventory, pipeline, structural
 
-STREAMS = {'quick': 12, 'thorough': 1200}
+STREAMS = {'quick': 12, 'thorough': 8000}
 EXHAUSTIVE_PREFIX_LIMIT = 4096
 
 
